@@ -18,7 +18,7 @@ import os.path
 import unicodedata
 from collections.abc import Iterator
 from copy import copy
-from decimal import Decimal, DecimalException
+from decimal import Decimal, DecimalException, localcontext
 from string import ascii_letters
 from typing import cast, Optional, Union, NoReturn
 from urllib.parse import urlsplit, quote as urllib_quote
@@ -372,11 +372,13 @@ def evaluate__round_half_to_even(self: XPathFunction, context: ta.ContextType = 
     try:
         if isinstance(item, int):
             return round(item, precision)  # type: ignore[arg-type]
-        elif isinstance(item, Decimal):
-            return round(item, precision)  # type: ignore[arg-type]
         elif isinstance(item, Float):
             return Float(round(item, precision))  # type: ignore[arg-type]
-        return float(round(Decimal.from_float(item), precision))   # type: ignore[arg-type]
+        with localcontext() as ctx:
+            ctx.prec = 2000  # enough for every xs:double and for decimals rounded at |precision| < 1900
+            if isinstance(item, Decimal):
+                return round(item, precision)  # type: ignore[arg-type]
+            return float(round(Decimal.from_float(item), precision))   # type: ignore[arg-type]
     except TypeError as err:
         if isinstance(context, XPathSchemaContext):
             return []
